@@ -24,11 +24,18 @@ class SPEC:
             "plainsrv (exporter with security settings against a plaintext listener) | plaincli (exporter WITHOUT security settings "
             "against the encrypted collector) | rawplaincli (plain socket writing an IPFIX message to the encrypted collector). The "
             "implementation's observation must EQUAL the Lean model's outcome (Ipfix.TLS.session, configurations read off the regenerated "
-            "Generated/TLS.lean) and Spec.C18.holdsOn is evaluated on the implementation's observation of every cell. Every cell is "
-            "non-trivial; distinct by hash of the op.")
+            "Generated/TLS.lean, including the DTLS exporter's VerifyPeerCertificate name check) and Spec.C18.holdsOn is evaluated on the "
+            "implementation's observation of every cell. No cell is expected to fail. The cells of the former finding D11 (dtls x ServerName "
+            "{unset, 127.0.0.1, 10.1.1.1} x a certificate of the trusted CA not valid for the expected name/address; repaired by 90a2eb6) are "
+            "additionally ANCHORED: they must be refused (init-err), and dtls x trusted certificate x ServerName {unset, localhost, 127.0.0.1} "
+            "must be accepted and deliver, whatever the model says. Every cell is non-trivial; distinct by hash of the op.")
     assumptions = [
         "crypto/tls, crypto/x509 and pion/dtls v2 enforce the configuration they are given, with the semantics written down in "
-        "Model/TLSDecision.lean (assumed; observed over the whole matrix on every run, not proved)",
+        "Model/TLSDecision.lean (assumed; observed over the whole matrix on every run, not proved); in particular pion calls "
+        "Config.VerifyPeerCertificate after its own verification and fails the handshake on its error, and x509.Certificate.VerifyHostname "
+        "matches an IP literal against the IP SANs and any other name against the DNS SANs",
+        "the exporter's VerifyPeerCertificate hook is recognised by its source text (Model/TLSDecision.nameCheckBody) and by the assignments "
+        "that reach the variables it captures; a hook the model does not recognise counts as no hook (the behaviour before 90a2eb6)",
         "'security settings present' is read as ExporterInput.TLSClientConfig != nil resp. CollectorInput.IsEncrypted = true "
         "(a collector given certificates but IsEncrypted = false is not considered to have security settings)",
         "'a collector configured with a client CA' exists over TLS/TCP only: the DTLS listener sets ClientCAs to its own certificate "
@@ -41,7 +48,8 @@ class SPEC:
         "a negative ('not delivered') is the absence of a delivery within 3 s (TCP) / 5 s (UDP) in two independent attempts, or a session "
         "the raw peer saw torn down",
     ]
-    trusted = ["tools/tlsfacts (go/ast translator: tls.Config / dtls.Config literals with path conditions, Dial/Listen calls -> "
+    trusted = ["tools/tlsfacts (go/ast translator: tls.Config / dtls.Config literals with path conditions, Dial/Listen calls, func literals "
+               "assigned to security fields with the assignments reaching their captured variables (go/parser object resolution) -> "
                "Generated/TLS.lean; cross-checked at run time by the matrix itself: the model defined from the facts must predict every cell)",
                "harness/cmd/harness-tls (certificate minting, raw crypto/tls peers, plaintext peers, timeouts)"]
 
@@ -151,6 +159,24 @@ PRUNING_NOTE = ("pruned: (1) raw-client columns (cli11/12/13) run with the trust
                 "mismatching DNS name, mismatching IP) because TLS and pion treat IP literals differently.")
 
 
+# Former finding D11 (repaired in /repo by 90a2eb6): the DTLS exporter performed no name / address check for an empty or IP ServerName.
+# These cells are part of the dtls-real sub-matrix; their expected observation is pinned here independently of the Lean model.
+FORMER_D11 = [(sn, sc) for sn in ("unset", "ip") for sc in ("wrongsan", "nosan")] + [("badip", sc) for sc in ("trusted", "wrongsan", "nosan")]
+DTLS_MUST_ACCEPT = [(sn, "trusted") for sn in ("unset", "ip", "dns")]     # the name check must not refuse everybody
+
+
+def anchor(o):
+    """expected observation of an anchored cell, or None"""
+    f = o.split(" ")
+    if len(f) != 8 or f[2] != "dtls" or f[7] != "real":
+        return None
+    if (f[4], f[3]) in FORMER_D11:
+        return "init-err"
+    if (f[4], f[3]) in DTLS_MUST_ACCEPT:
+        return "init-ok delivered"
+    return None
+
+
 def well_formed(o):
     return o == "init-err" or o.startswith("init-ok delivered") or o.startswith("init-ok not-delivered") or o == "na"
 
@@ -161,7 +187,7 @@ def run(ctx):
     env = dict(os.environ)
     dist = G.Counter()
     seen = set()
-    disagreements, failures = [], []
+    disagreements, failures, anchor_failures = [], [], []
     samples = []
     evaluations = 0
     complete = True
@@ -178,6 +204,15 @@ def run(ctx):
             dist.add("outcome:" + " ".join(i.split(" ")[:2]))
             if i != m:
                 disagreements.append({"case": ci, "rep": rep, "ops": c.ops, "impl": i, "model": m, "label": c.label})
+            want = anchor(c.ops[0])
+            if want is not None:
+                dist.add("anchor:" + ("former-D11-refused" if want == "init-err" else "dtls-valid-name-accepted") + (":ok" if i == want else ":FAILED"))
+                if i != want and well_formed(i) and not (want == "init-err" and i.startswith("init-ok")):
+                    # an anchored cell that is wrongly ACCEPTED is reported by the predicate below (name-mismatch); this is the other
+                    # direction (a valid collector refused) or a session that came about without delivering
+                    anchor_failures.append({"signature": "C18:dtls:anchor:" + want.replace(" ", "-"), "ops": c.ops, "impl": i, "model": m,
+                                            "label": c.label, "rep": rep, "predicate": {"name": "gen.c18.anchor", "value": "expected " + want},
+                                            "note": "anchored cell of the DTLS name check: expected '%s', the implementation shows '%s'" % (want, i)})
             if well_formed(i):
                 chk_lines.append("chk %s | %s" % (c.ops[0], i))
                 chk_idx.append(ci)
@@ -192,24 +227,25 @@ def run(ctx):
             c = cases[ci]
             why = v.replace("fails ", "").replace(" ", "-")
             t = c.ops[0].split(" ")[2]
-            sig = "C18:dtls-no-name-check" if why == "dtls-no-name-check" else "C18:%s:%s" % (t, why)
+            sig = "C18:%s:%s" % (t, why)
             failures.append({"signature": sig, "ops": c.ops, "impl": impl[ci][0], "model": model[ci][0], "label": c.label, "rep": rep,
                              "predicate": {"name": "Ipfix.C18.holdsOn", "value": v},
                              "note": "Spec.C18.holdsOn on the implementation's observation of the cell: " + v})
         if rep == 0:
             picks = [0, len(cases) // 5, len(cases) // 3, len(cases) // 2, len(cases) - 1]
             samples = [{"ops": cases[k].ops, "impl": impl[k], "model": model[k], "label": cases[k].label} for k in picks]
+    failures.extend(anchor_failures)
     fail_cases = {tuple(f["ops"]) for f in failures}
     for d in disagreements:
         d["explained_by_predicate_failure"] = tuple(d["ops"]) in fail_cases
-    # one failure per distinct (signature, cell); unknown signatures first so that 50 slots show every kind
+    # one failure per distinct (signature, cell)
     uniq, seen_f = [], set()
     for f in failures:
         k = (f["signature"], tuple(f["ops"]))
         if k not in seen_f:
             seen_f.add(k)
             uniq.append(f)
-    uniq.sort(key=lambda f: (f["signature"] == "C18:dtls-no-name-check", f["signature"]))
+    uniq.sort(key=lambda f: f["signature"])
     per_sig, kept = {}, []
     for f in uniq:                       # every kind of failure stays visible: at most 60 cells per signature
         per_sig[f["signature"]] = per_sig.get(f["signature"], 0) + 1
@@ -218,12 +254,21 @@ def run(ctx):
     uniq = kept
     facts = check.run_ops(ctx.driver, ["tls facts"])[0]
     notes = ["matrix: %d cells (%s), %d repetition(s); every cell compared with the model's outcome and checked against Spec.C18.holdsOn" % (
-        len(cases), ", ".join("%s %d" % (k, v) for k, v in sorted(dist.items()) if not k.startswith(("outcome:", "predicate:"))), reps),
+        len(cases), ", ".join("%s %d" % (k, v) for k, v in sorted(dist.items()) if not k.startswith(("outcome:", "predicate:", "anchor:"))), reps),
         PRUNING_NOTE,
         "configurations the model read off Generated/TLS.lean: " + (facts[0] if facts else "missing"),
         "Generated/TLS.lean regenerated by tools/tlsfacts at import of gen/c18.py" + (" FAILED: " + FACTS_ERROR if FACTS_ERROR else ""),
         "the collector's DTLS listener does not authenticate exporters (ClientCAs = its own certificate, no ClientAuth) whether or not "
         "CACert is given; C18 demands client authentication only for a collector configured with a client CA over TLS"]
+    n_d11 = sum(1 for c in cases if anchor(c.ops[0]) == "init-err")
+    n_acc = sum(1 for c in cases if anchor(c.ops[0]) == "init-ok delivered")
+    notes.append("former finding D11 (repaired by 90a2eb6): %d cells (dtls x ServerName unset/127.0.0.1 x wrong SAN/no SAN, ServerName 10.1.1.1 x "
+                 "trusted/wrong SAN/no SAN) anchored to init-err, %d cells (dtls x trusted x ServerName unset/localhost/127.0.0.1) anchored to "
+                 "init-ok delivered; failed anchors: %d" % (n_d11, n_acc, sum(v for k, v in dist.items() if k.startswith("anchor:") and k.endswith(":FAILED"))))
+    if n_d11 != 56 or n_acc != 24:
+        failures_note = "anchor cells missing from the matrix: %d/56 former-D11, %d/24 must-accept" % (n_d11, n_acc)
+        notes.append(failures_note)
+        uniq.append({"signature": "C18:dtls:anchor:missing-cells", "ops": [], "note": failures_note})
     if os.environ.get("VERIF_MUTANT_OVERLAY"):
         notes.append("VERIF_MUTANT_OVERLAY in effect: " + ",".join(sorted(json.loads(os.environ["VERIF_MUTANT_OVERLAY"]))))
     return {"evaluations": evaluations, "distinct_nontrivial": len(seen), "samples": samples, "distribution": dict(dist),
